@@ -160,7 +160,8 @@ PROPS = {
     'C17': dict(
         units=['typing'],
         deps=[],
-        witness=None,
+        witness=['c17', '--max', '2500'],
+        witness_thorough=['c17'],
         level='proof',
         technique='Verus contracts on the real type-agreement deciders (unify, check_type, check_or_constrain_unsigned/_signed) over the real AST type definitions',
         claim='Deductive proof (Verus/Z3), over all types and expressions (the real AST datatypes, extracted each run), of the single place where '
@@ -168,13 +169,21 @@ PROPS = {
               'that may become the other, and then both carry the agreed type, every other pair is an error with at least one message; '
               'check_or_constrain_unsigned/_signed accept exactly the expected type or a fitting unspecified literal (value bounds of every integer '
               'type checked); check_type accepts only an expression whose type equals the expected one. That every construct of type_check consults '
-              'these deciders, scoping, mutability, recursion / unused-function checks and pattern refutability are NOT under contract.',
+              'these deciders, scoping, mutability, recursion / unused-function checks and pattern refutability are NOT under contract: as the labelled '
+              'bounded stand-in, a catalogue of 108 static-rule violations (every rule named in the statement, several shapes each: operand / argument / '
+              'return / branch / annotation / assignment type mismatches for every pair of 17 types, non-Boolean conditions, unknown and out-of-scope '
+              'identifiers / fields / variants / functions, assignment to non-mut bindings / parameters / arrays / loop variables, too few and too many '
+              'arguments / fields, refutable patterns in let and for, direct / mutual / 3-cycle recursion, unused private functions, public functions '
+              'without parameters) is instantiated as (well-typed, ill-typed) program pairs differing only in the violation; the well-typed twin must be '
+              'accepted (else the pair is not counted) and the ill-typed one must be rejected with a type error (quick: 2500 pairs covering every rule, '
+              'thorough: all 7503).',
         note='Trusted: (A5) derived PartialEq on the AST types is structural equality and Clone returns an equal value (admit / external_body stub: '
              'derive(Clone) on the recursive enum is replaced); constrain_type is external_body (only "an error carries a message" is assumed); '
              'vstd; extraction drops derive lists other than Clone/Copy/PartialEq/Eq/Hash/Debug and serde attributes.',
-        title='type agreement deciders: mismatching operand / expected types are rejected with an error, for all types and expressions',
-        unverified=['UntypedExpr/Stmt/Pattern::type_check (that every rule consults the deciders)', 'Env scoping and mutability checks',
-                    'recursion detection, unused-function and pub-without-params checks', 'refutability of let / for patterns', 'constrain_type body'],
+        title='type agreement deciders: mismatching operand / expected types are rejected with an error, for all types and expressions (proved); '
+              'catalogue of static-rule violations rejected (bounded)',
+        unverified=['UntypedExpr/Stmt/Pattern::type_check (that every rule consults the deciders): bounded catalogue only', 'Env scoping and mutability checks: bounded catalogue only',
+                    'recursion detection, unused-function and pub-without-params checks: bounded catalogue only', 'refutability of let / for patterns: bounded catalogue only', 'constrain_type body'],
     ),
     'C09': dict(
         units=[],
